@@ -608,10 +608,11 @@ def gen_view(r, cid, robust=False):
     plast = rlast = None
     pstarted = rstarted = False
     REC = 130
+    split_case = (not robust) and r.random() < 0.3
     for _ in range(nev):
         x = r.random()
         if x < 0.35:
-            events.append(["ps", pb])
+            events.append(["ps", pb, "split"] if (split_case and r.random() < 0.6) else ["ps", pb])
             plast = pb
             pb = 30 + (pb - 30 + 1) % 30
             pstarted = True
@@ -629,6 +630,8 @@ def gen_view(r, cid, robust=False):
             else:
                 k = r.randint(0, 6 * REC)
             events.append(["ph", k])
+        elif x < 0.92 and split_case:
+            events.append(["pb"])
         elif x < 0.94 and pstarted:
             events.append(["pr", r.random() < 0.5])
             events.append(["ps", plast])
@@ -683,9 +686,15 @@ def check_view(run, exe, model, cases, scratch, fixflags="1 1"):
         qat = {}
         shared_at = {}
         Dp_at = {}
+        mid = False                # between the two halves of a state-file rewrite of P, as R sees it
+        inside = False             # R has exchanged in such a window: the known hole (C14_meta_prefix_exchange_inside_state_rewrite_refuted)
+        inside_at = {}
         for k, rec in enumerate(out):
             ev = rec["ev"]
             who = "p" if ev[0] in ("ps", "pr") else "r" if ev[0] in ("rs", "rr") else None
+            if ev[0] in ("ps", "pr", "ph", "pb") and mid:
+                toks.append("wb")
+                mid = False
             if ev[0] in ("ps", "rs"):
                 nt = (t[who] if t[who] is not None else 0) if first[who] else t[who] + 1
                 rel0 = first[who]
@@ -698,8 +707,14 @@ def check_view(run, exe, model, cases, scratch, fixflags="1 1"):
                 if nt % c["upfreq"] == 0 and who == "r":
                     toks.append("s")
                     shared_at[k] = True
+                    if mid:
+                        inside = True
                 if rfq[who] > 0 and (not rel0) and nt % rfq[who] == 0:
-                    toks.append("w,%d" % nt if who == "p" else "o")
+                    if who == "p" and len(ev) > 2 and ev[2] == "split":
+                        toks.append("wa,%d" % nt)
+                        mid = True
+                    else:
+                        toks.append("w,%d" % nt if who == "p" else "o")
             elif ev[0] == "pr":
                 toks += ["w,%d" % t["p"], "u,%d,%d" % (t["p"], 1 if ev[1] else 0)]
                 first["p"] = True
@@ -714,6 +729,9 @@ def check_view(run, exe, model, cases, scratch, fixflags="1 1"):
                 toks.append("q")
             Dp_at[k] = list(D["p"])
             rec["Dr"] = list(D["r"])
+            inside_at[k] = inside
+            if bool(rec.get("mid")) != mid:
+                raise V.InfraError("C14 view bookkeeping out of step with the controller at event %d of %s" % (k, c["id"]))
         mres = None
         if not c["robust"] and reclen:
             rc, mout, err = V.run_lines(model, ["META %s %s" % (fixflags, " ".join(toks))], timeout=600)
@@ -762,7 +780,8 @@ def check_view(run, exe, model, cases, scratch, fixflags="1 1"):
                     break
                 kpre = prefix_len(cont, Dp, NB)
                 if kpre is None:
-                    run.violation("view:mirror-not-a-prefix" + (":robust" if c["robust"] else ""),
+                    run.violation("view:mirror-not-a-prefix" + (":robust" if c["robust"] else "") +
+                                  (":exchange-inside-state-rewrite" if inside_at[k] else ""),
                                   "after event %d %s the reader holds for its peer hills in bins %s; the peer deposited, in order, %s; the reader saw "
                                   "the first %d bytes of the peer's hills file (records of %s bytes)" % (k, rec["ev"], show(cont), [b for (_, b) in Dp],
                                   rec["view_hills_bytes"], reclen), {"kind": "view", "case": c, "event": k})
@@ -770,9 +789,9 @@ def check_view(run, exe, model, cases, scratch, fixflags="1 1"):
                 if shared_at.get(k) and reclen and rec.get("files_ok", True) and rec["p_state_step"] is not None:
                     S = rec["p_state_step"]
                     n_state = sum(1 for (it, _) in Dp if it <= S)
-                    n_file = (rec["view_hills_bytes"] + 1) // reclen
+                    n_file = 0 if rec.get("mid") else (rec["view_hills_bytes"] + 1) // reclen
                     if kpre < n_state + n_file:
-                        run.violation("view:visible-hills-missing", "after its exchange in event %d the reader holds %d hills of its peer (bins %s) although the "
+                        run.violation("view:visible-hills-missing" + (":exchange-inside-state-rewrite" if inside_at[k] else ""), "after its exchange in event %d the reader holds %d hills of its peer (bins %s) although the "
                                       "state file (step %d, %d hills) and %d complete records (%d bytes) were visible" %
                                       (k, kpre, show(cont), S, n_state, n_file, rec["view_hills_bytes"]), {"kind": "view", "case": c, "event": k})
                         break
@@ -793,7 +812,7 @@ def check_view(run, exe, model, cases, scratch, fixflags="1 1"):
                 irec = 0 if ipos <= 0 else (ipos + 1) // reclen if reclen and (ipos + 1) % reclen == 0 else -1
                 isum = {"sync": int(mir["in_sync"]), "S": int(mir["state_step"]), "pos": irec, "cont": show(cont)}
                 msum = {"sync": mm["sync"], "S": mm["S"], "pos": mm["pos"], "cont": show(counts_of(mm["cont"], NB))}
-                if isum != msum or not mq["ok"]:
+                if isum != msum or (not mq["ok"] and not inside_at[k]):
                     isum["pos_bytes"] = ipos
                     run.mismatch("view", {"case": c, "event": k, "bytes": rec["view_hills_bytes"]}, isum, dict(msum, trace_ok=mq["ok"]))
                     tie_ok = False
